@@ -845,6 +845,19 @@ func scenariosMain(args []string) int {
 		ran[sc.name] = len(w.cases) - before
 		c.close()
 	}
+	// oracles on the real code that are not per-event comparisons
+	func() {
+		c := newScenarioCluster(w, out, 1, seed)
+		defer c.close()
+		defer func() {
+			if v := recover(); v != nil {
+				w.findings = append(w.findings, fmt.Sprintf("C15|scenario-panic snapshot-order|snapshot order oracle: harness panic %v|", v))
+			}
+		}()
+		before := len(w.cases)
+		snapshotOrderOracle(c)
+		ran["oracle:snapshot-request-ordered-with-applies"] = len(w.cases) - before
+	}()
 	w.flush(out, 250, map[string]interface{}{"seed": seed, "errors": nil, "scenarios": ran})
 	return 0
 }
